@@ -1,2 +1,127 @@
-From Tetl Require Import Lib.Base C17.Ops C17.Model C17.Spec.
-Example C17_nonvacuous : num_words 65 64 = 2. Proof. reflexivity. Qed.
+(* C17 — bitset equals std::bitset for every size and operation history.
+   Property theorems only: each is closed by [exact] of a lemma proved in
+   Words/Abs/Observers/Ctors/History/Extras.v, followed by Print Assumptions.
+
+   Quantification: every width Bits >= 1 and every word width w = 2^k (k arbitrary: 8, 16, 32, 64
+   bit words are k = 3..6; etl::bitset<Bits> is k = 6), every history over the alphabet of Ops.v.
+   Vocabulary (Abs.v):
+     getbit k ws i = bit (i mod w) of word (i / w) of the storage array ws
+     abs bits k ws = [getbit k ws 0; ...; getbit k ws (bits-1)]   the std::bitset value ws stands for
+     wf bits k ws  = ws has num_words words, each below 2^w, and getbit k ws i = false for all i >= bits
+   The word boundary (last word with or without padding, position in the last word or before) is a
+   case split inside the proofs, never a sample. *)
+From Tetl Require Import Lib.Base C17.Ops C17.Model C17.Spec C17.Words C17.Abs C17.Observers C17.Ctors
+  C17.History C17.Extras C17.NonVac.
+From Coq Require Import NArith.
+Local Open Scope nat_scope.
+
+(* MAIN: every history prints on the model exactly what it prints on std::bitset — after every
+   step to_string, count, all, any, none, to_ullong (Bits <= 64), ==, the answers of test /
+   operator[] / the proxy's bool and ~, and "precondition failed" exactly where std::bitset throws
+   out_of_range (or, for operator[], leaves its domain) — from value-initialised sets and from any
+   well-formed pair of storage arrays.
+   op_dom only excludes strings with characters other than zero/one (std: invalid_argument). *)
+Theorem C17_history_refines : forall bits k, 0 < bits -> forall ops, forallb op_dom ops = true ->
+  run_m bits (2 ^ k) (init_m bits (2 ^ k)) ops = s_run bits (s_init bits) ops
+  /\ forall st, wf2 bits k st -> run_m bits (2 ^ k) st ops = s_run bits (abs2 bits k st) ops.
+Proof.
+  intros bits k Hb ops Hd.
+  exact (conj (history_refines bits k Hb ops Hd) (fun st Hst => run_refines bits k Hb ops st Hst Hd)).
+Qed.
+Print Assumptions C17_history_refines.
+
+(* one step: refinement of every operation, preservation of the invariant, and the contract
+   fires exactly when std::bitset has no defined (non-throwing) answer; never UB, never out of fuel *)
+Theorem C17_step_refines : forall bits k, 0 < bits -> forall st o,
+  wf2 bits k st -> op_dom o = true ->
+  match step_m bits (2 ^ k) st o with
+  | Ok (st', q) => wf2 bits k st' /\ s_step bits (abs2 bits k st) o = Some (abs2 bits k st', q)
+  | Contract => s_step bits (abs2 bits k st) o = None
+  | _ => False
+  end.
+Proof. exact step_refines. Qed.
+Print Assumptions C17_step_refines.
+
+(* padding invariant: after every history both storage arrays are well formed; in particular they
+   have num_words words and the unused high bits of the last word are zero
+   (last word < 2^(w - padding)) *)
+Theorem C17_padding_zero_inv : forall bits k, 0 < bits -> forall ops, forallb op_dom ops = true ->
+  (forall st, wf2 bits k st -> wf2 bits k (final_state bits k st ops))
+  /\ let st := final_state bits k (init_m bits (2 ^ k)) ops in
+     last_word_clean bits k (fst st) /\ last_word_clean bits k (snd st)
+     /\ length (fst st) = num_words bits (2 ^ k) /\ length (snd st) = num_words bits (2 ^ k).
+Proof.
+  intros bits k Hb ops Hd.
+  exact (conj (fun st Hst => invariant_along_history bits k Hb ops st Hst Hd) (padding_zero_inv bits k Hb ops Hd)).
+Qed.
+Print Assumptions C17_padding_zero_inv.
+
+(* observers on any well-formed array = std::bitset observers of the value it stands for; and the
+   representation is canonical (a value has exactly one well-formed array), which is why the
+   defaulted operator== on the arrays is equality of values.  Unused high bits cannot influence a
+   result because, by the invariant, there are none. *)
+Theorem C17_observers_spec : forall bits k, 0 < bits -> forall ws, wf bits k ws ->
+  count_m ws = s_count (abs bits k ws)
+  /\ all_m bits (2 ^ k) (ones (2 ^ k)) (padding_mask_inv bits (2 ^ k)) ws = s_all (abs bits k ws)
+  /\ any_m ws = s_any (abs bits k ws)
+  /\ none_m ws = s_none (abs bits k ws)
+  /\ (forall zero one, to_string_m bits (2 ^ k) (ones (2 ^ k)) ws zero one = s_to_string (abs bits k ws) zero one)
+  /\ (bits <= 64 -> to_ullong_m bits (2 ^ k) (ones (2 ^ k)) (ones 64) ws = s_value (abs bits k ws))
+  /\ (forall ws', wf bits k ws' -> words_eqb ws ws' = s_eq (abs bits k ws) (abs bits k ws'))
+  /\ (forall ws', wf bits k ws' -> abs bits k ws = abs bits k ws' -> ws = ws').
+Proof.
+  intros bits k Hb ws Hwf.
+  exact (conj (count_spec bits k Hb ws Hwf) (conj (all_spec bits k Hb ws Hwf) (conj (any_spec bits k Hb ws Hwf)
+        (conj (none_spec bits k Hb ws Hwf) (conj (fun z o => to_string_spec bits k Hb ws z o Hwf)
+        (conj (to_ullong_spec bits k Hb ws Hwf) (conj (fun ws' H' => eq_spec bits k Hb ws ws' Hwf H')
+        (fun ws' H' => abs_inj bits k Hb ws ws' Hwf H')))))))).
+Qed.
+Print Assumptions C17_observers_spec.
+
+(* constructors.  Integer: every value, bits above min(64, Bits) are dropped.  String: every string /
+   pos / n (size_t incl. npos) / zero / one: the precondition fires exactly when std throws
+   out_of_range; otherwise the array is well formed whatever the characters are, and for strings of
+   zero/one characters it stands for the standard's value (last used character = bit 0, only the
+   first Bits characters used) *)
+Theorem C17_constructors_spec : forall bits k, 0 < bits ->
+  (forall val, wf bits k (of_ullong bits (2 ^ k) (ones (2 ^ k)) (ones 64) val)
+               /\ abs bits k (of_ullong bits (2 ^ k) (ones (2 ^ k)) (ones 64) val) = s_of_ullong bits val)
+  /\ forall str pos n zero one,
+     match of_string bits (2 ^ k) (ones (2 ^ k)) (ones 64) str pos n zero one with
+     | Ok ws => length str >= pos /\ wf bits k ws
+                /\ (str_valid str pos n zero one = true ->
+                    s_of_string bits str pos n zero one = SOk (abs bits k ws))
+     | Contract => s_of_string bits str pos n zero one = SOutOfRange
+     | _ => False
+     end.
+Proof. intros bits k Hb. exact (conj (of_ullong_spec bits k Hb) (of_string_spec bits k Hb)). Qed.
+Print Assumptions C17_constructors_spec.
+
+(* the precondition pos < digits of set_bit/reset_bit/flip_bit/test_bit holds for every offset
+   basic_bitset passes (the model treats these helpers as total) *)
+Theorem C17_offset_precondition : forall k pos,
+  bit_pos_ok (2 ^ k) (offset_in_word (2 ^ k) pos) = true.
+Proof. exact offset_lt. Qed.
+Print Assumptions C17_offset_precondition.
+
+(* popcount: the constant-evaluation path (Kernighan loop, at most w iterations) returns the
+   number of one bits, which is what the run-time builtin is modelled as, for every word width *)
+Theorem C17_popcount_fallback : forall w x, bnd w x ->
+  popcount_fallback (ones w) w x = Some (popcount x) /\ popcount x = bitcount w x.
+Proof. intros w x Hb. exact (conj (popcount_fallback_width w x Hb) (popcount_bitcount w x Hb)). Qed.
+Print Assumptions C17_popcount_fallback.
+
+(* non-vacuity: the hypotheses are satisfiable and the conclusions non-trivial at widths one below
+   a word multiple, at it and above it: concrete histories (string constructor "1000001" resp. 2^63+1,
+   flip all, set the top bit, proxy copy, a failing position) evaluated on model and spec *)
+Example C17_nonvacuous :
+  forallb op_dom (nv_ops 6) = true
+  /\ run_m 7 8 (init_m 7 8) (nv_ops 6) = s_run 7 (s_init 7) (nv_ops 6)
+  /\ run_m 64 64 (init_m 64 64) (nv_ops 63) = s_run 64 (s_init 64) (nv_ops 63)
+  /\ run_m 65 64 (init_m 65 64) (nv_ops 64) = s_run 65 (s_init 65) (nv_ops 64)
+  /\ map (option_map (fun r => (o_count (fst r), o_all (fst r), snd r))) (run_m 65 64 (init_m 65 64) (nv_ops 64))
+     = [Some (2, false, []); Some (63, false, []); Some (63, false, []); Some (0, false, []);
+        Some (65, true, []); Some (65, true, []); Some (63, false, []); Some (63, false, [true; true; true; false]);
+        None; Some (1, false, []); Some (64, false, [])]
+  /\ fst (final_state 65 6 (init_m 65 64) (nv_ops 64)) = [18446744073709551614; 1]%N.
+Proof. exact nonvacuous. Qed.
